@@ -222,6 +222,18 @@ class C07(Prop):
         if da.get('allocs') is not None and db.get('allocs') is not None and a.get('error') is None and b.get('error') is None:
             if da['allocs'] != db['allocs']:
                 j.failures.append('recorded target allocations up to day %d differ when later data are %s' % (c['T'], c['mode_future']))
+        # the allocation TABLE (get_target_allocations): rows dated on or before T
+        ta, tb = a.get('alloc_df'), b.get('alloc_df')
+        if isinstance(ta, list) and isinstance(tb, list) and len(ta) == 2 and len(tb) == 2 and ta[0] != 'err' and tb[0] != 'err' \
+                and a.get('error') is None and b.get('error') is None:
+            def rows_upto(t_):
+                cols, table = t_
+                return [[d, sorted((k, v) for k, v in zip(cols, row) if v != 'nan')] for d, row in table if d <= c['T']]
+            ra, rb = rows_upto(ta), rows_upto(tb)
+            if ra != rb:
+                k = next((i for i, (p, q) in enumerate(zip(ra, rb)) if p != q), min(len(ra), len(rb)))
+                j.failures.append('target-allocation table up to day %d differs when later data are %s: %s vs %s' % (
+                    c['T'], c['mode_future'], ra[k:k + 1], rb[k:k + 1]))
         if a['init'][0] == 'ok' and (da['equity'] or da['fills']) and c['market'] != c['market2']:
             j.nontrivial = True
         j.tags.append(c['mode_future'])
